@@ -181,6 +181,22 @@ P_C07_NoTrace(i) == ~Committed(i) => Raw(i) = Raw(i - 1)
 \* C08: a committed write appends exactly one log of the right shape; nothing else appends
 P_C08_OneLog(i) == IF Committed(i) THEN Nxt(i).logs = X(i).ls.logs ELSE Nxt(i).logs = Cur(i).logs
 
+\* C16: ids of a ledger are independent of the other ledgers (also of those sharing its bucket).  In a
+\* sequential history the only gaps are ids burnt by this ledger's own rolled-back attempts (failed or dry-run
+\* requests after the id was drawn): the new id is at most one more than the previous maximum plus the
+\* number of such attempts made on this ledger so far.
+CaseStart(i) == CHOOSE j \in 1..i : IsReset(j) /\ \A k \in (j + 1)..i : ~IsReset(k)
+SeqLinesOn(i, lg, kinds) == {j \in (CaseStart(i) + 1)..(i - 1) : IsSeq(j) /\ Trace[j].op.l = lg /\ Trace[j].op.k \in kinds}
+Burnt(i, lg, kinds, len(_)) ==   \* earlier attempts on lg that left nothing behind (an upper bound of the ids burnt)
+  Cardinality({j \in SeqLinesOn(i, lg, kinds) : lg \in Ledgers(j - 1) /\ len(Raw(j)[lg]) = len(Raw(j - 1)[lg])})
+WriteKinds == {"create", "revert", "txmeta", "untxmeta", "acmeta", "unacmeta"}
+P_C16_Independent(i) ==
+  LET lg == Trace[i].op.l
+  IN Committed(i) /\ Trace[i].op.k \in WriteKinds =>
+       /\ (Trace[i].op.k \in {"create", "revert"} =>
+             NewTxId(i, lg) <= MaxTxId(Cur(i)) + Burnt(i, lg, {"create", "revert"}, LAMBDA o : Len(o.txs)) + 1)
+       /\ NewLogId(i, lg) <= MaxLogId(Cur(i)) + Burnt(i, lg, WriteKinds, LAMBDA o : Len(o.logs)) + 1
+
 \* C25 / C15: the new transaction is exactly the one requested (postings as submitted, or the exact reversal)
 P_C25_Recorded(i) == Committed(i) /\ Trace[i].op.k = "create" =>
                         /\ Nxt(i).txs = X(i).ls.txs
@@ -408,6 +424,7 @@ Step_C17_MetaOutcome == [][IsSeq(l') =>P_C17_MetaOutcome(l')]_vars
 Step_Outcome == [][IsSeq(l') =>P_Outcome(l')]_vars
 Step_C07_NoTrace == [][IsSeq(l') =>P_C07_NoTrace(l')]_vars
 Step_C08_OneLog == [][IsSeq(l') =>P_C08_OneLog(l')]_vars
+Step_C16_Independent == [][IsSeq(l') => P_C16_Independent(l')]_vars
 Step_C25_Recorded == [][IsSeq(l') =>P_C25_Recorded(l')]_vars
 Step_C15_Reverted == [][IsSeq(l') =>P_C15_Reverted(l')]_vars
 Step_C17_Metadata == [][IsSeq(l') =>P_C17_Metadata(l')]_vars
@@ -453,6 +470,7 @@ StepChecks(i) ==
      <<"Step_Outcome", P_Outcome(i)>>,
      <<"Step_C07_NoTrace", P_C07_NoTrace(i)>>,
      <<"Step_C08_OneLog", P_C08_OneLog(i)>>,
+     <<"Step_C16_Independent", P_C16_Independent(i)>>,
      <<"Step_C25_Recorded", P_C25_Recorded(i)>>,
      <<"Step_C15_Reverted", P_C15_Reverted(i)>>,
      <<"Step_C17_Metadata", P_C17_Metadata(i)>>,
